@@ -131,12 +131,11 @@ func (gr *groupedRowReader) colsBySelector(ctx context.Context) (map[string]ColD
 		}
 
 		if aggFn == COUNT && sel.distinct {
-			// COUNT(DISTINCT col) needs the column type for selector resolution
-			colDesc, ok := colDescriptors[EncodeSelector("", table, col)]
-			if !ok {
+			// the result of COUNT(DISTINCT col) is an INTEGER whatever the column's type
+			// (the sort spill decodes values by descriptor type)
+			if _, ok := colDescriptors[EncodeSelector("", table, col)]; !ok {
 				return nil, fmt.Errorf("%w (%s)", ErrColumnDoesNotExist, col)
 			}
-			des.Type = colDesc.Type
 			colDescriptors[encSel] = des
 			continue
 		}
